@@ -857,6 +857,20 @@ class ExcelCompiler:
             else:
                 # CSE Array Formula
                 data = self.eval(cell_range, cell_range.address)
+                if list_like(data) and list_like(data[0]) and any(
+                        is_address(d) for d in flatten(data)):
+                    # the formula produced a reference (OFFSET, INDIRECT),
+                    # the cells of the range show the cells referred to
+                    # (an empty cell shows as 0, like any formula result)
+                    def referred_to(ref, row, col):
+                        value = self._evaluate(
+                            ref.address_at_offset(row, col).address)
+                        return 0 if value is None else value
+
+                    data = tuple(tuple(
+                        referred_to(d, r, c) if is_address(d) else d
+                        for c, d in enumerate(row))
+                        for r, row in enumerate(data))
             self.log.info(f"Range {cell_range.address} evaluated to '{data}'")
 
             cell_range.value = data
